@@ -760,6 +760,40 @@ func c19GenHold(r *verifh.Rand) interface{} {
 	return in
 }
 
+// c19GenAtomic: a prefix syncer and ATOMIC writes that touch several keys under the prefix (PutAndDelete
+// of 2–3 keys, DeletePrefix over the existing keys), mostly delivered by the watch (long pullInterval):
+// the events of one atomic write share a revision and arrive in one watch response, so a syncer that
+// emitted a snapshot per event would deliver contents the store never had.
+func c19GenAtomic(r *verifh.Rand) interface{} {
+	in := c19Input{Mode: r.Pick("prefix", "rawprefix"), Key: "p/", PullMs: r.PickInt(1000, 3000, 10000, 20), Seq: r.Bool(1, 2)}
+	under := []string{"p/a", "p/b", "p/ab", "p/a/x"}
+	local := map[string]string{}
+	for k, n := 0, r.Range(0, 3); k < n; k++ {
+		w := c19Write{Subs: []c19Sub{{Op: "put", K: under[r.Intn(len(under))], V: r.Pick("1", "2")}}}
+		c19ApplyLocal(local, w)
+		in.Init = append(in.Init, w)
+	}
+	for k, n := 0, r.Range(1, 5); k < n; k++ {
+		w := c19Write{PauseUs: r.PickInt(0, 0, 1000, 5000)}
+		if r.Bool(1, 4) && len(local) >= 2 {
+			w.Subs = []c19Sub{{Op: "delp", K: "p/"}}
+		} else {
+			perm := r.Intn(len(under))
+			for j, m := 0, r.Range(2, 3); j < m; j++ {
+				key := under[(perm+j)%len(under)]
+				if _, ok := local[key]; ok && r.Bool(1, 3) {
+					w.Subs = append(w.Subs, c19Sub{Op: "del", K: key})
+				} else {
+					w.Subs = append(w.Subs, c19Sub{Op: "put", K: key, V: r.Pick("1", "2", "3")})
+				}
+			}
+		}
+		c19ApplyLocal(local, w)
+		in.Writes = append(in.Writes, w)
+	}
+	return in
+}
+
 func c19Gen(r *verifh.Rand, i int) interface{} {
 	in := c19Input{}
 	in.Mode = r.Pick("prefix", "prefix", "rawprefix", "sync", "raw")
@@ -821,6 +855,9 @@ func c19Gen(r *verifh.Rand, i int) interface{} {
 	}
 	if r.Bool(1, 20) {
 		return c19GenHold(r)
+	}
+	if r.Bool(1, 20) {
+		return c19GenAtomic(r)
 	}
 	if verifh.Env().Thorough() && r.Bool(1, 150) {
 		return c19Input{Big: &c19Big{Mode: r.Pick("prefix", "rawprefix"), Keys: r.PickInt(600, 1100, 1100, 1600), PullMs: r.PickInt(2, 5, 10),
@@ -956,134 +993,4 @@ func c19EqGen(r *verifh.Rand, i int) interface{} {
 
 func TestVerifC19Eq(t *testing.T) {
 	verifh.Run(t, c19EqGen, c19EqExec, 0)
-}
-
-// ---------------------------------------------------------------------------
-// the data path below syncer.pull: GetRaw / Get / GetRawPrefix / GetPrefix result mapping
-// (found / not found / error). Errors are produced by a cluster handle whose request
-// timeout is 1 ns (context deadline exceeded before the request leaves).
-
-type c19Call struct {
-	Fn   string `json:"fn"` // GetRaw | Get | GetRawPrefix | GetPrefix | pull | pullPrefix
-	Key  string `json:"key"`
-	Fail bool   `json:"fail"`
-}
-
-type c19OpsInput struct {
-	Store [][2]string `json:"store"`
-	Calls []c19Call   `json:"calls"`
-}
-
-type c19CallRes struct {
-	Err bool        `json:"err"`
-	Nil bool        `json:"nil"`
-	Kvs [][2]string `json:"kvs"`
-}
-
-func c19OpsExec(raw json.RawMessage) interface{} {
-	var in c19OpsInput
-	if err := json.Unmarshal(raw, &in); err != nil {
-		return map[string]string{"error": "bad-input"}
-	}
-	c := c19Cluster
-	cl, err := c.getClient()
-	if err != nil {
-		return map[string]string{"error": "client"}
-	}
-	bad := &cluster{opt: c.opt, requestTimeout: time.Nanosecond, layout: c.layout, client: cl, done: make(chan struct{})}
-	root := fmt.Sprintf("/verif/c19ops/%d/", atomic.AddInt64(&c19Root, 1))
-	for _, kv := range in.Store {
-		if err := c.Put(root+kv[0], kv[1]); err != nil {
-			return map[string]string{"error": "put"}
-		}
-	}
-	out := []c19CallRes{}
-	for _, call := range in.Calls {
-		h := c
-		if call.Fail {
-			h = bad
-		}
-		res := c19CallRes{Kvs: [][2]string{}}
-		switch call.Fn {
-		case "GetRaw":
-			kv, err := h.GetRaw(root + call.Key)
-			res.Err, res.Nil = err != nil, kv == nil
-			if kv != nil {
-				res.Kvs = append(res.Kvs, [2]string{strings.TrimPrefix(string(kv.Key), root), string(kv.Value)})
-			}
-		case "Get":
-			v, err := h.Get(root + call.Key)
-			res.Err, res.Nil = err != nil, v == nil
-			if v != nil {
-				res.Kvs = append(res.Kvs, [2]string{call.Key, *v})
-			}
-		case "GetRawPrefix":
-			m, err := h.GetRawPrefix(root + call.Key)
-			res.Err, res.Nil = err != nil, m == nil
-			mm := map[string]string{}
-			for k, kv := range m {
-				if kv == nil || string(kv.Key) != k {
-					mm[k] = "<bad-entry>"
-				} else {
-					mm[k] = string(kv.Value)
-				}
-			}
-			res.Kvs = c19Canon(mm, root)
-		case "GetPrefix":
-			m, err := h.GetPrefix(root + call.Key)
-			res.Err, res.Nil = err != nil, m == nil
-			res.Kvs = c19Canon(m, root)
-		case "pull", "pullPrefix":
-			sy := &syncer{cluster: h, client: cl, pullInterval: time.Second, done: make(chan struct{})}
-			m, err := sy.pull(root+call.Key, call.Fn == "pullPrefix")
-			res.Err, res.Nil = err != nil, m == nil
-			mm := map[string]string{}
-			for k, kv := range m {
-				if kv == nil || string(kv.Key) != k {
-					mm[k] = "<bad-entry>"
-				} else {
-					mm[k] = string(kv.Value)
-				}
-			}
-			res.Kvs = c19Canon(mm, root)
-		}
-		out = append(out, res)
-	}
-	c.DeletePrefix(root)
-	return map[string]interface{}{"res": out}
-}
-
-func c19OpsGen(r *verifh.Rand, i int) interface{} {
-	in := c19OpsInput{Store: [][2]string{}}
-	for _, k := range c19Keys {
-		if r.Bool(1, 2) {
-			in.Store = append(in.Store, [2]string{k, r.Pick("1", "2", "")})
-		}
-	}
-	for k, n := 0, r.Range(2, 8); k < n; k++ {
-		in.Calls = append(in.Calls, c19Call{Fn: r.Pick("GetRaw", "Get", "GetRawPrefix", "GetPrefix", "pull", "pullPrefix"),
-			Key: r.Pick("p/a", "p", "p/", "pp", "q", "zz", "p/a/x"), Fail: r.Bool(1, 3)})
-	}
-	return in
-}
-
-func TestVerifC19Ops(t *testing.T) {
-	if verifh.Env().Out == "" {
-		t.Skip("VERIF_OUT not set")
-	}
-	dir, err := ioutil.TempDir("", "verif-c19ops")
-	if err != nil {
-		t.Fatal(err)
-	}
-	defer os.RemoveAll(dir)
-	c19Cluster = CreateClusterForTest(dir).(*cluster)
-	if _, err := c19Cluster.getClient(); err != nil {
-		t.Fatalf("client: %v", err)
-	}
-	defer func() {
-		wg := &sync.WaitGroup{}
-		wg.Add(1)
-		c19Cluster.Close(wg)
-	}()
-	verifh.Run(t, c19OpsGen, c19OpsExec, 300*time.Second)
 }
